@@ -281,8 +281,173 @@ def check_loop(item):
     return finish(res, st)
 
 
+# ---------------------------------------------------------------------------
+def check_ffwd(item):
+    """('ffwd', accelerator): the fast-forward of a recognised sampling loop in LoadTracer._read_port, from a symbolic clock, next
+    edge time, counter, R and EAR state.  With the per-trip facts of check_loop this gives equivalence with n real trips:
+    the state moves by a whole number n of trips (T, R, counter, flags of the last INC/DEC), no sample that is skipped could
+    have seen the edge (T + (n-1) * loop_time <= edge), the counter does not reach its end value, and the edge index
+    advances exactly when the clock has passed the edge."""
+    _, accname = item
+    from skoolkit.loadsample import ACCELERATORS, BYTE, Accelerator
+    import skoolkit.loadtracer as lt
+    acc = Accelerator(*ACCELERATORS[accname])
+    st = Stats()
+    res = new_res()
+    name = 'fast-forward %s' % accname
+    state = {}
+    pc = BASE + acc.c0
+    memory = [0] * 65536
+    for k, b in enumerate(acc.code):
+        memory[BASE + k] = 0 if b is BYTE else b
+
+    def fn(path):
+        regs = [0] * 30
+        T0 = sym_int('T', 0, 1 << 22)
+        # the next edge relative to the clock: up to ~17 ms ahead (pilot pulses are 0.6 ms, the longest data pulse of the ROM scheme 0.5 ms), or already passed
+        delta = sym_int('edge_delta', -1000, 60000)
+        edge = T0 + delta
+        state['delta'] = delta
+        cnt = sym_int('counter', 0, 255)
+        r0 = sym_int('R', 0, 255)
+        ear = sym_int('earreg', 0, 255)
+        idx = sym_int('index', 2, 40)
+        regs[25], regs[acc.counter], regs[15], regs[24], regs[26] = T0, cnt, r0, pc, 0
+        if acc.ear_mask and acc.ear != acc.counter:
+            regs[acc.ear] = ear
+        t = lt.LoadTracer.__new__(lt.LoadTracer)
+        sim = type('S', (), {})()
+        sim.memory, sim.registers, sim.frame_duration, sim.int_active = memory, regs, 69888, 32
+        t.simulator = sim
+        t.frame_duration = 69888
+        t.in_min_addr = 0x4000
+        t.state = [edge, idx, 0, 1000, 1, 0, 0, 0, 0, 0]
+        t.edges = None
+        t.blocks = None
+        t.block_index = 0
+        t.max_index = 2000
+        t.accelerators = [Accelerator(*ACCELERATORS[accname])]
+        t.out7ffd = 0x10
+        t.outfffd = 0
+        t.ay = [0] * 16
+        t.tsl_misses = 0
+        t.list_accelerators = False
+        value = t._read_port()(regs, 0x7FFE)
+        state.update(T0=T0, edge=edge, cnt=cnt, r0=r0, idx=idx, regs=regs, tracer=t, ear=ear)
+        return value
+
+    def on(p, out):
+        res['obligations'] += 1
+        g = lambda mod, x: mod.eval(bv(x), model_completion=True).as_long()
+        case = lambda mod: dict(kind='ffwd', acc=accname, T=g(mod, state['T0']), edge=g(mod, state['edge']), counter=g(mod, state['cnt']), R=g(mod, state['r0']), index=g(mod, state['idx']), ear=g(mod, state['ear']))
+        if isinstance(out, tuple) and out[0] == 'exception':
+            r, mod = p.check(model=True)
+            res['violations'].append(dict(key='%s:exception' % name, text='%s raises %r' % (name, out[1]), case=case(mod)))
+            return
+        regs = state['regs']
+        T0, edge, cnt, r0 = (state[k].e for k in ('T0', 'edge', 'cnt', 'r0'))
+        T1, c1, R1_, F1 = bv(regs[25]), bv(regs[acc.counter]), bv(regs[15]), bv(regs[1])
+        lt_ = acc.loop_time
+        n = z3.BitVec('n_trips', W)
+        step = (c1 - cnt) if acc.inc else (cnt - c1)
+        diffs, names = [], []
+        # the state moved by a whole number of trips n = counter change
+        diffs.append(T1 != T0 + step * lt_); names.append('T does not advance by (counter change) x loop_time')
+        diffs.append(z3.Or(step < 0, step > 255)); names.append('counter moves the wrong way')
+        diffs.append(R1_ != ((r0 & 0x80) | ((r0 + step * acc.loop_r_inc) & 0x7F))); names.append('R does not advance by (counter change) x loop_r_inc')
+        # no skipped sample could have seen the edge: samples at T0 + j * loop_time for j < n are not after it
+        dl = state['delta'].e
+        diffs.append(z3.And(step >= 1, (step - 1) * lt_ > dl)); names.append('a skipped sample lies after the next edge')
+        # the counter does not reach the value that ends the loop
+        if acc.inc:
+            diffs.append(z3.And(step >= 1, c1 > 255)); names.append('counter wraps')
+            diffs.append(z3.And(step >= 1, c1 == 0)); names.append('counter reaches 0')
+        else:
+            diffs.append(z3.And(step >= 1, c1 < 1)); names.append('counter reaches 0')
+        # flags: those of the last INC/DEC executed (reference: the tracer-independent formula of the Z80 manual)
+        v = c1
+        if acc.inc:
+            fexp = (v & 0xA8) | z3.If(v == 0, z3.BitVecVal(0x40, W), z3.BitVecVal(0, W)) | z3.If((v & 15) == 0, z3.BitVecVal(0x10, W), z3.BitVecVal(0, W)) | z3.If(v == 0x80, z3.BitVecVal(4, W), z3.BitVecVal(0, W))
+        else:
+            fexp = (v & 0xA8) | z3.If(v == 0, z3.BitVecVal(0x40, W), z3.BitVecVal(0, W)) | z3.If((v & 15) == 15, z3.BitVecVal(0x10, W), z3.BitVecVal(0, W)) | z3.If(v == 0x7F, z3.BitVecVal(4, W), z3.BitVecVal(0, W)) | 2
+        diffs.append(z3.And(step >= 1, (F1 & 0xFE) != fexp)); names.append('flags are not those of the last INC/DEC of the counter')
+        # the value returned: EAR bit per the edge index after the fast-forward (index advances iff the clock passed the edge)
+        idx = state['idx'].e
+        idx1 = z3.If(z3.And(step >= 1, T1 > edge), idx + 1, idx)
+        want = z3.If((idx1 & 1) == 0, z3.BitVecVal(191, W), z3.BitVecVal(255, W))
+        diffs.append(bv(out) != want); names.append('port value does not match the edge index after the fast-forward')
+        r, mod, which = p.check_any(diffs, names)
+        if r == 'unknown':
+            res['inconclusive'].append(name); return
+        if r == 'sat':
+            res['violations'].append(dict(key='%s:%s' % (name, which[0][:50]), text='%s: %s with %r' % (name, '; '.join(which[:3]), case(mod)), case=case(mod)))
+            return
+        res['discharged'] += 1
+        res['nontrivial'] += 1
+        if not res['samples']:
+            res['samples'].append({'item': name, 'loop_time': lt_, 'loop_r_inc': acc.loop_r_inc, 'verdict': 'unsat'})
+
+    try:
+        explore(fn, stats=st, on_path=on, max_paths=2000)
+    except Inconclusive as e:
+        res['inconclusive'].append('%s: %s' % (name, e))
+    return finish(res, st)
+
+
+def replay_ffwd(case):
+    """concrete: the fast-forward against the real loop executed trip by trip on the real simulator with the same tape edge"""
+    from skoolkit.loadsample import ACCELERATORS, BYTE, Accelerator
+    import skoolkit.loadtracer as lt
+    import skoolkit.simulator as sm
+    acc = Accelerator(*ACCELERATORS[case['acc']])
+    pc = BASE + acc.c0
+    outs = []
+    for accelerated in (True, False):
+        memory = [0] * 65536
+        for k, b in enumerate(acc.code):
+            memory[BASE + k] = 0 if b is BYTE else b
+        # a closing absolute jump targets the start of the signature; the stack returns into the loop start
+        sim = sm.Simulator(memory, config={'frame_duration': 69888, 'int_active': 32})
+        regs = sim.registers
+        regs[25], regs[acc.counter], regs[15], regs[24], regs[26] = case['T'], case['counter'], case['R'], pc, 0
+        if acc.ear_mask and acc.ear != acc.counter:
+            regs[acc.ear] = case['ear']
+        t = lt.LoadTracer.__new__(lt.LoadTracer)
+        t.simulator = sim
+        t.frame_duration = 69888
+        t.in_min_addr = 0x4000
+        t.state = [case['edge'], case['index'], 0, 1000, 1, 0, 0, 0, 0, 0]
+        t.edges = None
+        t.blocks = None
+        t.block_index = 0
+        t.max_index = 2000
+        t.accelerators = [Accelerator(*ACCELERATORS[case['acc']])] if accelerated else []
+        t.out7ffd = 0x10
+        t.outfffd = 0
+        t.ay = [0] * 16
+        t.tsl_misses = 0
+        t.list_accelerators = False
+        v = t._read_port()(regs, 0x7FFE)
+        outs.append((v, regs[25], regs[acc.counter], regs[15], t.state[1]))
+    (va, Ta, ca, Ra, ia), (vn, Tn, cn, Rn, i_n) = outs
+    n = (ca - cn) if acc.inc else (cn - ca)
+    bad = []
+    if n < 0 or Ta != Tn + n * acc.loop_time:
+        bad.append('T %d after a counter change of %d (loop_time %d, T before %d)' % (Ta, n, acc.loop_time, Tn))
+    if n >= 1 and Tn + (n - 1) * acc.loop_time > case['edge']:
+        bad.append('skips a sample at %d, after the edge at %d' % (Tn + (n - 1) * acc.loop_time, case['edge']))
+    if n >= 1 and (ca == 0 or ca > 255):
+        bad.append('counter reaches %d' % ca)
+    if Ra != (Rn & 0x80) | ((Rn + n * acc.loop_r_inc) & 0x7F):
+        bad.append('R %d after %d trips from %d' % (Ra, n, Rn))
+    idx1 = case['index'] + (1 if (n >= 1 and Ta > case['edge']) else 0)
+    if va != (191 if idx1 % 2 == 0 else 255):
+        bad.append('port value %d with edge index %d' % (va, idx1))
+    return bool(bad), '; '.join(bad) or 'fast-forward is a whole number of safe trips'
+
+
 def work(item):
-    return {'dec_a': check_dec_a, 'dec_a_c': check_dec_a_c, 'loop': check_loop}[item[0]](item)
+    return {'dec_a': check_dec_a, 'dec_a_c': check_dec_a_c, 'loop': check_loop, 'ffwd': check_ffwd}[item[0]](item)
 
 
 # ---------------------------------------------------------------------------
@@ -364,6 +529,8 @@ def replay(case):
         return bool(bad), 'accelerated vs real loop differ in %s' % bad if bad else 'identical'
     if case['kind'] == 'dec_a_c':
         return replay_dec_a_c(case)
+    if case['kind'] == 'ffwd':
+        return replay_ffwd(case)
     if case['kind'] == 'loop':
         # concrete trip round the loop on the real simulator
         from skoolkit.loadsample import ACCELERATORS, BYTE, Accelerator
@@ -416,7 +583,7 @@ def main():
     import csim
     csim.prepare(False)
     from skoolkit.loadsample import ACCELERATORS
-    items = [('dec_a', 'jr'), ('dec_a', 'jp'), ('dec_a_c',)] + [('loop', k) for k in ACCELERATORS]
+    items = [('dec_a', 'jr'), ('dec_a', 'jp'), ('dec_a_c',)] + [('loop', k) for k in ACCELERATORS] + [('ffwd', k) for i, k in enumerate(ACCELERATORS) if args.tier == 'thorough' or i % 5 == 0]
     if args.only:
         items = [i for i in items if args.only in harness.item_name(i)]
     rep = harness.Report(
